@@ -60,9 +60,9 @@ func MkLink(cidBytes string) (datamodel.Link, error) {
 
 // the bindnode "any" family: typed containers of Any, which can hold every data-model value
 var (
-	anyTS          *schema.TypeSystem
-	BindAnyMap     schema.TypedPrototype
-	BindAnyList    schema.TypedPrototype
+	anyTS       *schema.TypeSystem
+	BindAnyMap  schema.TypedPrototype
+	BindAnyList schema.TypedPrototype
 )
 
 func init() {
